@@ -256,33 +256,133 @@ package utils
 //@   safe
 //@ end
 
-// ---- utils.Buffer (chunked byte buffer of the open block): frame only --------
-// ASSUMED: appending touches only the buffer object and byte contents; the
-// functional view (Append extends the byte sequence by exactly `data`) is
-// listed as Tier 2 in DESIGN.md and is not verified here.
+// ---- utils.Buffer (chunked byte buffer of the open block) ----------------
+// utils.Buffer is what every column of an open block is written into.
+// Representation invariant (bufInv): every chunk is a whole chunk of 16384
+// bytes; an empty buffer has offset 0, otherwise the offset of the first unused
+// byte of the last chunk is in (0, 16384].  It is a `recvinv`: assumed at the
+// entry of the methods, PROVED at their exits, and closed — all fields are
+// unexported and every function of the package that touches them is one of the
+// methods below (checked by the engine: verified pure, or proves the
+// invariant).  Logical length: bufLen.  Callers have no obligation from the
+// invariant.  Byte contents are not decided (the frames let bytes change); what
+// the chunk pool hands out is ASSUMED to be a whole chunk.
+//@ spec bufInv(b *Buffer) bool = forall(k, 0, len(b.chunks), len(b.chunks[k]) == 16384) && implies(len(b.chunks) == 0, b.offset == 0) && implies(len(b.chunks) > 0, 0 < b.offset && b.offset <= 16384)
+//@ spec bufLen(b *Buffer) int = ite(len(b.chunks) == 0, 0, b.offset + (len(b.chunks)-1)*16384)
+// physical length: what the chunks hold, also in the transient state of Append
+// (last chunk full, offset already reset, next chunk not yet taken)
+//@ spec bufPhys(b *Buffer) int = ite(len(b.chunks) == 0, 0, ite(b.offset == 0, len(b.chunks)*16384, b.offset + (len(b.chunks)-1)*16384))
+//@ func (*Buffer).Len
+//@   props C01
+//@   pure
+//@   safe
+//@   ensures [logical-length] implies(b != nil && bufInv(b), result == bufLen(b))
+//@   ensures implies(b == nil, result == 0)
+//@ end
+//@ func (*Buffer).Cap
+//@   props C01
+//@   pure
+//@   safe
+//@ end
+// Append keeps the invariant and grows the logical length by exactly len(data),
+// for every length of data and every fill state (the transient state "last
+// chunk full, next not yet taken" included); it cannot panic.
 //@ func (*Buffer).Append
-//@   assumed
-//@   modifies b.chunks, b.offset, allbytes
+//@   props C01
+//@   mode int
+//@   safe
+//@   recvinv b bufInv(b)
+//@   modifies b.chunks, b.offset, contents(b.chunks), allbytes
+//@   site callret chunkPool.Get #1:
+//@     assume [pool-holds-whole-chunks] implies(isdyn(result, *[]byte), result.(*[]byte) != nil && len(*(result.(*[]byte))) == 16384)
+//@   loop 1:
+//@     invariant [chunk-sizes] forall(k, 0, len(b.chunks), len(b.chunks[k]) == 16384)
+//@     invariant [offset-range] 0 <= b.offset && b.offset <= 16384 && implies(len(b.chunks) == 0, b.offset == 0)
+//@     invariant [consumed] len(data) <= old(len(data)) && bufPhys(b) == old(bufLen(b)) + (old(len(data)) - len(data))
+//@     invariant [transient-state-has-more-to-write] implies(len(b.chunks) > 0 && b.offset == 0, len(data) > 0)
+//@   ensures [length-grows-by-the-data] implies(b != nil, bufLen(b) == old(bufLen(b)) + len(data))
 //@ end
 //@ func (*Buffer).AppendUint16LittleEndian
-//@   assumed
-//@   modifies b.chunks, b.offset, allbytes
+//@   props C01
+//@   safe
+//@   recvinv b bufInv(b)
+//@   modifies b.chunks, b.offset, contents(b.chunks), allbytes
+//@   ensures [length-grows-by-2] implies(b != nil, bufLen(b) == old(bufLen(b)) + 2)
 //@ end
 //@ func (*Buffer).AppendUint32LittleEndian
-//@   assumed
-//@   modifies b.chunks, b.offset, allbytes
+//@   props C01
+//@   safe
+//@   recvinv b bufInv(b)
+//@   modifies b.chunks, b.offset, contents(b.chunks), allbytes
+//@   ensures [length-grows-by-4] implies(b != nil, bufLen(b) == old(bufLen(b)) + 4)
 //@ end
 //@ func (*Buffer).AppendUint64LittleEndian
-//@   assumed
-//@   modifies b.chunks, b.offset, allbytes
+//@   props C01
+//@   safe
+//@   recvinv b bufInv(b)
+//@   modifies b.chunks, b.offset, contents(b.chunks), allbytes
+//@   ensures [length-grows-by-8] implies(b != nil, bufLen(b) == old(bufLen(b)) + 8)
 //@ end
 //@ func (*Buffer).AppendInt64LittleEndian
-//@   assumed
-//@   modifies b.chunks, b.offset, allbytes
+//@   props C01
+//@   safe
+//@   recvinv b bufInv(b)
+//@   modifies b.chunks, b.offset, contents(b.chunks), allbytes
+//@   ensures [length-grows-by-8] implies(b != nil, bufLen(b) == old(bufLen(b)) + 8)
 //@ end
 //@ func (*Buffer).AppendFloat64LittleEndian
-//@   assumed
-//@   modifies b.chunks, b.offset, allbytes
+//@   props C01
+//@   safe
+//@   recvinv b bufInv(b)
+//@   modifies b.chunks, b.offset, contents(b.chunks), allbytes
+//@   ensures [length-grows-by-8] implies(b != nil, bufLen(b) == old(bufLen(b)) + 8)
+//@ end
+// Slice(start, end) is buffer[start:end] of the logical byte sequence: nil for
+// a range outside [0, Len], otherwise exactly end-start bytes; never panics,
+// whichever chunks the range touches.
+//@ func (*Buffer).Slice
+//@   props C01
+//@   mode int
+//@   safe
+//@   recvinv b bufInv(b)
+//@   modifies allbytes
+//@   loop 1:
+//@     invariant [copy-cursor] offset == 16384 - (start % 16384) + (i - (start/16384) - 1) * 16384 && i >= start/16384 + 1 && len(buf) == end - start
+//@   ensures [nil-outside-the-buffer] implies(b != nil && (start < 0 || end < start || end > old(bufLen(b))), len(result) == 0)
+//@   ensures [exactly-the-requested-length] implies(b != nil && 0 <= start && start <= end && end <= old(bufLen(b)), len(result) == end - start)
+//@ end
+//@ func (*Buffer).WriteAt
+//@   props C01
+//@   mode int
+//@   safe
+//@   recvinv b bufInv(b)
+//@   modifies allbytes
+//@   loop 1:
+//@     invariant [cursor-in-range] 0 <= offset && offset < 16384 && i >= 0
+//@   ensures [length-unchanged] implies(b != nil, bufLen(b) == old(bufLen(b)))
+//@ end
+// (CopyTo indexes the last chunk without looking at the chunk count: an EMPTY
+// buffer makes it panic.  No production code calls it; the precondition
+// records the restriction.)
+//@ func (*Buffer).CopyTo
+//@   props C01
+//@   mode int
+//@   safe
+//@   requires [not-on-an-empty-buffer] implies(b != nil, len(b.chunks) > 0)
+//@   recvinv b bufInv(b)
+//@   modifies allbytes
+//@   loop 1:
+//@     invariant [copy-cursor] offset == i * 16384 && 0 <= i && i <= len(b.chunks) - 1
+//@ end
+//@ func (*Buffer).Reset
+//@   props C01
+//@   safe
+//@   requires [receiver-exists] b != nil
+//@   recvinv b bufInv(b)
+//@   modifies b.chunks, b.offset
+//@   loop 1:
+//@     invariant [chunk-list-untouched-while-it-is-returned] rangeindex >= -1 && rangeindex < len(b.chunks) && samebase(b.chunks, old(b.chunks)) && len(b.chunks) == old(len(b.chunks))
+//@   ensures [emptied] bufLen(b) == 0 && len(b.chunks) == 0
 //@ end
 
 // ---- line splitting of bulk bodies (C15): the two results partition the input
